@@ -508,39 +508,14 @@ func checkC15(w *World, r *Report) {
 
 	r.Rule("R15.2", "prefixes are resolved from the statement as written: in each prefix-mapping closure the receiver of YangPrefixToNamespace is the very node that supplies the expression text, not the node that carries it", 3)
 	r.guard("R15.2", func() {
-		for _, c := range []struct{ fn, textMeth string }{{"BuildWhens", "ArgWhen"}, {"BuildMusts", "ArgMust"}, {"getPath", "Path"}} {
-			f := w.Method("compile", "Compiler", c.fn)
-			fd, _ := w.FuncDecl(f)
-			// node that supplies the text
-			var textObj types.Object
-			ast.Inspect(fd.Body, func(x ast.Node) bool {
-				if ce, ok := x.(*ast.CallExpr); ok {
-					if se, ok := ce.Fun.(*ast.SelectorExpr); ok && se.Sel.Name == c.textMeth && textObj == nil {
-						textObj = objOfIdent(p, se.X)
-					}
-				}
-				return true
-			})
-			good, n := true, 0
-			for _, fl := range closuresIn(fd) {
-				ast.Inspect(fl.Body, func(x ast.Node) bool {
-					if ce, ok := x.(*ast.CallExpr); ok {
-						if se, ok := ce.Fun.(*ast.SelectorExpr); ok && se.Sel.Name == "YangPrefixToNamespace" {
-							n++
-							if objOfIdent(p, se.X) != textObj || textObj == nil {
-								good = false
-							}
-						}
-					}
-					return true
-				})
-			}
-			r.Check(good && n == 1, "R15.2", c.fn+" prefix map", fd.Pos(), "closure resolves through the node whose "+c.textMeth+"() is compiled", "the prefix map of "+c.fn+" resolves prefixes through a different node than the statement that is written: after uses/augment copied the statement into another module its prefixes are looked up in the wrong import table")
-		}
+		// the three places that compile when, must and leafref path: same analysis as R15.5
+		c15TextAndScope(w, r, "R15.2", func(fn string) bool { return fn == "BuildWhens" || fn == "BuildMusts" || fn == "getPath" })
 	})
 
 	r.Rule("R15.5", "text and prefix scope belong to the same statement: at every machine constructor call in package compile the expression text is read directly from a parse statement and the prefix-mapping closure resolves through that very statement", 5)
-	r.guard("R15.5", func() { c15TextAndScope(w, r) })
+	r.guard("R15.5", func() {
+		c15TextAndScope(w, r, "R15.5", nil)
+	})
 
 	r.Rule("R15.6", "prefix lookup is first-match: the scan of a module's import statements in getPfxName carries no state from one import to the next (it returns at the first import whose prefix matches — the module's own imports precede those merged from its submodules)", 1)
 	r.guard("R15.6", func() {
